@@ -269,8 +269,26 @@ impl RoutingThread {
         let mut peer_key_list: Vec<SaitoPublicKey> = vec![];
         {
             let peers = self.network.peer_lock.read().await;
-            let peer = peers.find_peer_by_index(peer_index).unwrap();
-            peer_key_list.push(peer.public_key.unwrap());
+            // a ghost chain is built for the keys of an authenticated peer: nothing to send to one that
+            // has not completed the handshake (or is gone)
+            let peer = match peers.find_peer_by_index(peer_index) {
+                Some(peer) => peer,
+                None => {
+                    warn!("peer : {:?} not found for ghost chain request", peer_index);
+                    return;
+                }
+            };
+            let public_key = match peer.public_key {
+                Some(public_key) => public_key,
+                None => {
+                    warn!(
+                        "ghost chain request from peer : {:?} before its handshake completed",
+                        peer_index
+                    );
+                    return;
+                }
+            };
+            peer_key_list.push(public_key);
             peer_key_list.append(&mut peer.key_list.clone());
         }
 
